@@ -219,6 +219,11 @@ func (vm *VirtualMachine) runCodeInternal(ctx context.Context, codeToRun *compil
 		if r := recover(); r != nil {
 			err = fmt.Errorf("panic: %v", r)
 		}
+		if err != nil && vm.sp >= 0 && vm.sp < MaxStackDepth {
+			// The operands that the failed top-level code had pending are not
+			// live any more: a Call that follows starts from an empty stack
+			vm.unwindStack(-1)
+		}
 		vm.stop()
 	}()
 
